@@ -1,6 +1,7 @@
 import Tahoe.Immutable.LemmasSizes
 import Tahoe.Immutable.LemmasLayout
 import Tahoe.Immutable.LemmasPipeline
+import Tahoe.Immutable.Examples
 /-! C01 — immutable upload/download round-trip (property theorems; helper lemmas live in
     `Tahoe/Immutable/Lemmas*.lean`). -/
 namespace Tahoe.C01
@@ -182,30 +183,14 @@ theorem upload_download {Key : Type} (ks : Key → Nat → Block16) (c : Codec) 
   rw [List.take_of_length_le (by simp), List.take_of_length_le (by simp)] at this
   rw [this]
 
-/-- a concrete lawful codec (1-of-3 replication) and keystream: the hypotheses are satisfiable and the
-    pipeline really runs (two segments, schedule picking a different share for each) -/
-def repl3 : Codec :=
-  { encode := fun _ n pieces => List.replicate n (pieces.headD [])
-    decode := fun _ _ blocks => [(blocks.headD (0, [])).2] }
-
-theorem repl3_lawful (n : Nat) : repl3.Lawful 1 n := by
-  constructor
-  · intro pieces _; simp [repl3]
-  · intro pieces L hl hp b hb
-    simp only [repl3, List.mem_replicate] at hb
-    obtain ⟨_, rfl⟩ := hb
-    match pieces, hl with
-    | [p], _ => simpa using hp p (by simp)
-  · intro pieces L ids hl _ hidl _ hlt
-    match pieces, hl, ids, hidl with
-    | [p], _, [i], _ =>
-      have : i < n := hlt i (by simp)
-      simp [repl3, List.getD_eq_getElem?_getD, this]
-
-example :
-    let ks : Nat → Nat → Block16 := fun key blk j => UInt8.ofNat (key + 7 * blk + j.val)
-    (upload ks repl3 5 [1, 2, 3, 4, 5] 1 3 2).toOption.map (fun u => (u.ueb.numSegments, download ks repl3 u (fun s => [s % 3])))
-      = some (3, .ok [1, 2, 3, 4, 5]) := by
-  decide
+/-- the hypotheses are satisfiable and the pipeline really runs: 1-of-3 replication (`repl_lawful`), a toy
+    keystream, three segments, a schedule picking a different share for each segment -/
+example : repl.Lawful 1 3 ∧ (∀ s, ValidIds 1 3 [s % 3]) ∧
+    (upload toyKs repl 5 [1, 2, 3, 4, 5] 1 3 2).toOption.map
+        (fun u => (u.ueb.numSegments, (download toyKs repl u (fun s => [s % 3])).toOption))
+      = some (3, some [1, 2, 3, 4, 5]) ∧ encrypt toyKs 5 [1, 2, 3, 4, 5] ≠ [1, 2, 3, 4, 5] := by
+  refine ⟨repl_lawful 3, fun s => ⟨rfl, by simp, fun i hi => ?_⟩, by decide, by decide⟩
+  simp only [List.mem_singleton] at hi
+  omega
 
 end Tahoe.C01
